@@ -1888,7 +1888,7 @@ func (m *c18Machine) stmt(fr *c18Frame, s ast.Stmt, label string) c18Ctl {
 			isStr = true
 		case c18Map:
 			mv := x.mp()
-			if len(mv.keys) > 1 {
+			if len(mv.keys) > 1 && !c06RangeOrderFree(fr.info, s) {
 				m.abort("range over a map with %d entries (iteration order is unspecified): %s", len(mv.keys), types.ExprString(s.X))
 			}
 			mapKeys = append(mapKeys, mv.keys...)
